@@ -189,6 +189,55 @@ def structural_edit(wire, m):
     return tree_bytes(tree)
 
 
+
+_P256_N = 0xffffffff00000000ffffffffffffffffbce6faada7179e84f3b9cac2fc632551
+
+
+def _der_int(x, pad=0):
+    b = x.to_bytes(max(1, (x.bit_length() + 7) // 8), 'big')
+    if b[0] & 0x80:
+        b = b'\x00' + b
+    b = b'\x00' * pad + b
+    return b'\x02' + bytes([len(b)]) + b
+
+
+def _ecdsa_alt(sig, how):
+    """sig = DER SEQUENCE { INTEGER r, INTEGER s } (short form) -> another encoding, or None when sig is not of that shape"""
+    try:
+        if sig[0] != 0x30 or sig[1] != len(sig) - 2 or sig[2] != 0x02:
+            return None
+        lr = sig[3]
+        r = int.from_bytes(sig[4:4 + lr], 'big')
+        if sig[4 + lr] != 0x02 or 4 + lr + 2 + sig[5 + lr] != len(sig):
+            return None
+        sv = int.from_bytes(sig[6 + lr:], 'big')
+    except IndexError:
+        return None
+    if not (0 < r < _P256_N and 0 < sv < _P256_N):
+        return None
+    if how == 'negs':
+        body = _der_int(r) + _der_int(_P256_N - sv)
+    elif how == 'padr':
+        body = _der_int(r, 1) + _der_int(sv)
+    elif how == 'pads':
+        body = _der_int(r) + _der_int(sv, 1)
+    elif how == 'r_plus_n':
+        body = _der_int(r + _P256_N) + _der_int(sv)
+    else:   # 'longlen'
+        body = _der_int(r) + _der_int(sv)
+        return b'\x30\x81' + bytes([len(body)]) + body
+    if len(body) > 127:
+        return None
+    return b'\x30' + bytes([len(body)]) + body
+
+
+def _is_negated_s(orig_sig, recv_sig):
+    """recv_sig is exactly the canonical DER encoding of (r, n - s) for orig_sig = DER (r, s) on P-256"""
+    if orig_sig is None or recv_sig is None:
+        return False
+    alt = _ecdsa_alt(bytes(orig_sig), 'negs')
+    return alt is not None and alt == bytes(recv_sig)
+
 def refix_params_digest(wire):
     """the parameters digest is not covered by the signature: a tamperer recomputes it"""
     try:
@@ -324,6 +373,29 @@ def mutate(wire, m):
                 t0, n1 = tlvref.dec_var(inner, 0, strict=False)
                 _l, n2 = tlvref.dec_var(inner, n1, strict=False)
                 return tlvref.tlv(t0, inner[n1 + n2:])
+        return wire
+    if m['t'] == 'sigalt':
+        # another byte string in the place of an ECDSA signature value that denotes the same or a related (r, s):
+        # (r, n - s), non-minimal DER integers, a long-form DER length, r + n. Nothing but SignatureValue (and Lengths) changes.
+        for is_int in (False, True):
+            try:
+                p = tlvref.parse_interest(wire) if is_int else tlvref.parse_data(wire)
+            except tlvref.TlvError:
+                continue
+            if not p.sig_value:
+                continue
+            alt = _ecdsa_alt(bytes(p.sig_value), m.get('how', 'negs'))
+            if alt is None:
+                return wire
+            typ = tlvref.T_INT_SIG_VALUE if is_int else tlvref.T_SIG_VALUE
+            old_el = tlvref.tlv(typ, p.sig_value)
+            idx = wire.rfind(old_el)
+            if idx < 0:
+                return wire
+            inner = wire[:idx] + tlvref.tlv(typ, alt) + wire[idx + len(old_el):]
+            t0, n1 = tlvref.dec_var(inner, 0, strict=False)
+            _l, n2 = tlvref.dec_var(inner, n1, strict=False)
+            return tlvref.tlv(t0, inner[n1 + n2:])
         return wire
     if m['t'] == 'sigflip':
         # flip one byte inside the SignatureValue (nothing else changes)
@@ -762,6 +834,8 @@ class SigWorld(World):
                 if not same and not getattr(recv, 'signed_ambiguous', False):
                     what = 'signed portion' if recv.signed_portion != orig.signed_portion else \
                         ('signature value' if recv.sig_value != orig.sig_value else 'parameters digest')
+                    if what == 'signature value' and _is_negated_s(orig.sig_value, recv.sig_value):
+                        what = 'signature value ecdsa s negated'
                     self.violate('C02', 'forged-accepted', comp, what.replace(' ', '-'),
                                  f'flow {fid}: a {flow["dir"]} whose {what} differs from the packet signed with '
                                  f'{flow["signer"]} was accepted (mutation {flow.get("mutation")})')
@@ -783,6 +857,8 @@ class SigWorld(World):
                 continue
             if recv.signed_portion != orig.signed_portion or recv.sig_value != orig.sig_value:
                 what = 'signed-portion' if recv.signed_portion != orig.signed_portion else 'signature-value'
+                if what == 'signature-value' and _is_negated_s(orig.sig_value, recv.sig_value):
+                    what = 'signature-value-ecdsa-s-negated'
                 self.violate('C02', 'forged-accepted', f'{flow["signer"]}-{flow["dir"]}', 'verifier-alone-' + what,
                              f'flow {e["fid"]}: the matching verifier, asked directly, accepted a {flow["dir"]} whose '
                              f'{what} differs from the signed packet (mutation {flow.get("mutation")})')
@@ -836,6 +912,8 @@ def rand_mut(rng):
         return {'t': 'trunc', 'n': rng.randint(1, 400)}
     if x < 0.48:
         return {'t': 'set', 'off': rng.randint(0, 300), 'v': rng.choice([0, 1, 0x17, 0x16, 0xfd, 0xff, rng.randint(0, 255)])}
+    if 0.56 <= x < 0.58:
+        return {'t': 'sigalt', 'how': rng.choice(['negs', 'negs', 'padr', 'pads', 'r_plus_n', 'longlen']), 'refix': True}
     if x < 0.58:
         return {'t': 'len', 'path': rng.randint(0, 40), 'd': rng.choice([-1, 1])}
     if x < 0.66:
